@@ -16,6 +16,7 @@ import (
 	"reflect"
 	"strconv"
 	"strings"
+	"time"
 	"unicode/utf16"
 	"unicode/utf8"
 
@@ -483,6 +484,10 @@ func runDisk(ch *simrt.Chooser, opt Options) RunResult {
 				} else if of.hasVal && of.obj != nil {
 					// what a caller does with one result must not show in the next one (a reader-side cache handing out its own copy)
 					try(func() { of.obj.Set("changed-by-the-caller", 1); of.obj.Unset("a", "b", "k1", "") })
+					if s.Draw("time-between-reads", 3) == 0 {
+						// (simulated time: whatever a reader keeps for a while must not show either)
+						simrt.Sleep([]time.Duration{time.Millisecond, time.Second, 2 * time.Minute, 48 * time.Hour}[s.Draw("time-between-reads-d", 4)])
+					}
 					again := parseFil(p)
 					res.Evals++
 					if again.class() != o1.class() || again.canon != o1.canon {
